@@ -1,7 +1,7 @@
 """Shared recognisers for the rule tables."""
 from ..interp import interp, cinfo, fmt_term
 from ..terms import (versionless, is_call, call_name, param_path, rooted_at_param, elem_of, elem_value_of,
-                     as_item, iter_source, iter_adaptors, LOSSY_ADAPTORS, subterms, closure_bindings, subst, phi_alts)
+                     as_item, iter_source, iter_adaptors, LOSSY_ADAPTORS, subterms, closure_bindings, subst, phi_alts, drop_lv)
 from ..summaries import call_effects, effects, loc_target, Effect
 from ..ordset import Evaluator, Reach, TOTAL, PARTIAL, LT, EQ, GT, NONE
 
@@ -66,7 +66,14 @@ def match_dot_gate(a, b):
     C, X = a[2]
     Xv, cv = versionless(X), versionless(b)
     if Xv[0] == 'field' and Xv[2] == 'actor' and cv[0] == 'field' and cv[2] == 'counter' and Xv[1] == cv[1]:
-        return {'clock': versionless(C), 'dot': Xv[1]}
+        return {'clock': versionless(C), 'dot': Xv[1], 'kf': 'actor', 'vf': 'counter'}
+    # the same dot seen as an (actor, counter) entry of a clock's dots map
+    if Xv[0] == 'field' and Xv[2] == '0' and cv[0] == 'field' and cv[2] == '1' and Xv[1] == cv[1]:
+        src = as_item(Xv[1])
+        if src is not None:
+            base = versionless(iter_source(src)[0])
+            if base[0] == 'field' and base[2] == 'dots':
+                return {'clock': versionless(C), 'dot': Xv[1], 'kf': '0', 'vf': '1'}
     return None
 
 
@@ -365,3 +372,23 @@ def chain_parts(src):
     if s_[0] == 'call' and call_name(s_) == 'chain' and len(s_[2]) == 2:
         return chain_parts(s_[2][0]) + chain_parts(s_[2][1])
     return [s_]
+
+
+def presence_atom(t, side, field, name, subst_map=None):
+    """`<side>.<field>` has the key: contains_key / contains / get(..).is_some() / !get(..).is_none() /
+    `match get(..) { Some.. }` (discriminant)  ->  atom `name` (or its negation / discriminant map), else None."""
+    ts = subst(t, subst_map) if subst_map else t
+    ts = drop_lv(ts)
+
+    def on_field(x):
+        pp = param_path(versionless(x))
+        return bool(pp and pp[0] == side and tuple(pp[1]) == (field,))
+    if is_call(ts, ('contains_key', 'contains')) and len(ts[2]) == 2 and on_field(ts[2][0]):
+        return name
+    if is_call(ts, ('is_some', 'is_none')) and ts[2] and is_call(drop_lv(ts[2][0]), ('get', 'get_mut', 'get_key_value')) \
+            and len(drop_lv(ts[2][0])[2]) == 2 and on_field(drop_lv(ts[2][0])[2][0]):
+        return name if call_name(ts) == 'is_some' else ('not', name)
+    if ts[0] == 'discr' and is_call(drop_lv(ts[1]), ('get', 'get_mut', 'get_key_value', 'remove')) and len(drop_lv(ts[1])[2]) == 2 \
+            and on_field(drop_lv(ts[1])[2][0]):
+        return ('map', name, {True: 1, False: 0})
+    return None
